@@ -116,6 +116,25 @@ fn main() {
             let _ = fs::remove_dir_all(&base); return;
         }
     } }
+    // an id is matched against the `id` FIELD of the stored records (data) and then used as a directory name: an id with parent segments
+    // must not make the hook read a "checkpoint" outside the root and copy its files in
+    {
+        let outer = base.join("crafted_id"); let root = outer.join("ws");
+        let ws = Workspace { root: root.clone(), checkpoints_dir: root.join(".rip").join("checkpoints") };
+        let evil = "../../../../outside_cp";
+        let outside = outer.join("outside_cp"); fs::create_dir_all(outside.join("files")).unwrap();
+        fs::write(outside.join("files").join("stolen.txt"), "secret").unwrap();
+        let rec = format!("{}\ns\nl\n0\nstolen.txt\ttrue\t\n", evil);
+        fs::write(outside.join("checkpoint.json"), &rec).unwrap();
+        let planted = ws.checkpoints_dir.join("s").join("planted"); fs::create_dir_all(&planted).unwrap();
+        fs::write(planted.join("checkpoint.json"), &rec).unwrap();
+        let hook = WorkspaceCheckpointHook { workspace: ws };
+        let res = hook.rewind("s", evil).map(|r| r.files);
+        if root.join("stolen.txt").exists() {
+            println!("WITNESS {{\"function\": \"WorkspaceCheckpointHook::rewind\", \"checkpoint_id\": {:?}, \"planted_record_claims_that_id\": true, \"rewind_result\": {:?}, \"problem\": \"a file from outside the workspace root was read and copied into it\"}}", evil, res);
+            let _ = fs::remove_dir_all(&base); return;
+        }
+    }
     let files = ["a.txt", "d/b\\c.txt"];      // the second name holds a backslash: on Unix an ordinary character of the file name
     let mut case = 0u64;
     // state of each file: 0 absent, 1 "v1", 2 "v2"; before checkpoint x after edits x which files are covered x how they are named x cwd x sabotage
